@@ -15,9 +15,11 @@ na_file = V / "manifest.d" / "not_applicable.json"
 if na_file.exists():
     na_reasons = json.loads(na_file.read_text())
 checks, engines, na = [], [], []
+# only properties the owner has verified (exit 0 on the unchanged tree, evidence valid) are registered
+enabled = set(json.loads((V / "manifest.d" / "enabled.json").read_text()))
 for p in props:
     f = V / "manifest.d" / f"{p}.json"
-    if f.exists():
+    if f.exists() and p in enabled:
         frag = json.loads(f.read_text())
         c = {
             "property_id": p,
